@@ -35,26 +35,13 @@ Definition context_free_rules : list str := codes [
   "no-unused-labels"; "no-useless-rename"; "no-var"; "no-with"; "prefer-as-const"; "react-no-danger";
   "require-yield"; "single-var-declarator"; "use-isnan"; "valid-typeof" ].
 
-(* Overrides of context-free rules that do NOT recurse on the current tree: each hides the
-   rule's constructs beneath that node kind (confirmed on the implementation by the nesting
-   differential, classes "C08.hidden:<rule>:<method>"; one-line repairs proposed in
-   /verif/work/c08-fix-<rule>.diff).  The obligation below says that there is NO OTHER: a new
-   non-recursing or unclassifiable override of a context-free rule breaks the proof. *)
-Definition known_non_recursing : list (str * str) :=
-  map (fun p => (s2l (fst p), s2l (snd p))) [
-    ("no-invalid-regexp", "visit_call_expr"); ("no-invalid-regexp", "visit_new_expr");
-    ("valid-typeof", "visit_bin_expr");
-    ("single-var-declarator", "visit_var_decl");
-    ("no-empty-pattern", "visit_object_pat_prop"); ("no-empty-pattern", "visit_object_pat"); ("no-empty-pattern", "visit_array_pat");
-    ("no-redeclare", "visit_var_declarator"); ("no-redeclare", "visit_param");
-    ("getter-return", "visit_return_stmt");
-    ("require-yield", "visit_yield_expr");
-    ("no-inferrable-types", "visit_class_prop"); ("no-inferrable-types", "visit_private_prop") ].
-
-(* the two whole-program analyses are Visit implementations too; their non-recursing overrides:
-   visit_param of deno_ast's scope analysis hides everything inside the parameter defaults of
-   `function`s from the scope-consulting rules (dependency, not repairable in /repo); the others
-   are leaves (labels, import specifiers) or pure type declarations *)
+(* The two whole-program analyses rules consult are Visit implementations too (pseudo rules
+   "scope-analysis" = deno_ast's scopes.rs, "control-flow-analysis" = src/control_flow/mod.rs).  Their
+   non-recursing overrides: visit_param of the scope analysis hides everything inside the parameter
+   defaults of `function`s from the scope-consulting rules -- a defect of the dependency, not
+   repairable in /repo, observed by the differential as the four known classes
+   C08.hidden:{no-class-assign,no-const-assign,no-ex-assign,no-func-assign}:scope-analysis.visit_param;
+   the others are leaves (labels, import specifiers) or pure type declarations. *)
 Definition known_analysis_non_recursing : list (str * str) :=
   map (fun p => (s2l (fst p), s2l (snd p))) [
     ("scope-analysis", "visit_param");
@@ -78,25 +65,19 @@ Definition entries_of (r : str) : list ventry := filter (fun e => str_eqb (v_rul
 Definition recurses_all (e : ventry) : bool :=
   match v_class e with RecAll | RecByDesign => true | RecNone | RecUnknown => false end.
 
-Definition acceptable (known : list (str * str)) (e : ventry) : bool :=
-  recurses_all e ||
-  match v_class e with RecNone => pair_mem (v_rule e, v_method e) known | _ => false end.
-
-Definition has_known (r : str) : bool := existsb (fun q => str_eqb r (fst q)) known_non_recursing.
-
-(* the context-free rules whose visitors are complete today *)
-Definition complete_rules : list str := filter (fun r => negb (has_known r)) context_free_rules.
-
 Lemma entries_of_In r e : In e visit_table -> v_rule e = r -> In e (entries_of r).
 Proof. intros Hin He. unfold entries_of. apply filter_In. split; [exact Hin|]. rewrite He. apply str_eqb_refl. Qed.
 
-(* ---- 1. complete visitors: the hypothesis `complete` of visit_complete / embedding *)
+(* ---- 1. complete visitors: the hypothesis `complete` of visit_complete / embedding holds for EVERY
+   claimed context-free rule: each overridden visit method recurses into all children (or skips only
+   what the translator's commented allow-list marks as skipped by design).  A new non-recursing or
+   unclassifiable (RecUnknown) override of any of these rules makes this computation yield false. *)
 Theorem context_free_rules_recurse :
-  forallb (fun r => forallb recurses_all (entries_of r)) complete_rules = true.
+  forallb (fun r => forallb recurses_all (entries_of r)) context_free_rules = true.
 Proof. vm_compute. reflexivity. Qed.
 
-Theorem complete_rules_spec : forall r e,
-  In r complete_rules -> In e visit_table -> v_rule e = r ->
+Theorem context_free_rules_recurse_spec : forall r e,
+  In r context_free_rules -> In e visit_table -> v_rule e = r ->
   v_class e = RecAll \/ v_class e = RecByDesign.
 Proof.
   intros r e Hr Hin He. pose proof context_free_rules_recurse as H. rewrite forallb_forall in H.
@@ -104,21 +85,10 @@ Proof.
   unfold recurses_all in H. destruct (v_class e); try discriminate; auto.
 Qed.
 
-(* ---- 2. every non-recursing override of a context-free rule is a known one; nothing is unclassified *)
-Theorem context_free_rules_recurse_or_known :
-  forallb (fun r => forallb (acceptable known_non_recursing) (entries_of r)) context_free_rules = true.
+(* no row of a context-free rule is RecNone / RecUnknown, stated on the table directly *)
+Theorem no_non_recursing_override_in_context_free_rules :
+  filter (fun e => mem (v_rule e) context_free_rules && negb (recurses_all e)) visit_table = [].
 Proof. vm_compute. reflexivity. Qed.
-
-Theorem context_free_rules_spec : forall r e,
-  In r context_free_rules -> In e visit_table -> v_rule e = r ->
-  v_class e = RecAll \/ v_class e = RecByDesign \/
-  (v_class e = RecNone /\ In (v_rule e, v_method e) known_non_recursing).
-Proof.
-  intros r e Hr Hin He. pose proof context_free_rules_recurse_or_known as H. rewrite forallb_forall in H.
-  specialize (H r Hr). rewrite forallb_forall in H. specialize (H e (entries_of_In r e Hin He)).
-  unfold acceptable, recurses_all in H. destruct (v_class e) eqn:E; cbn [orb] in H; try discriminate; auto.
-  right. right. split; [reflexivity|]. apply pair_mem_In. exact H.
-Qed.
 
 (* the analyses: their non-recursing overrides are the listed ones (unknown = partial recursion
    is frequent there and not judged) *)
